@@ -27,7 +27,7 @@ ASSUMPTIONS = ["RLIMIT_FSIZE stands in for a full file system and applies to eve
                "overflow = the end index of an appended subarray does not fit the index type"]
 EXHAUSTIVE = "the F-fsize grid for the values file and for the indices file"
 KINDS = ['raise', 'badatom', 'badrank', 'unconv', 'overflow', 'numstr', 'bare-scalar', 'atomshaped']
-MUST_HIT = ['iter:>1024-items-before-the-failure', 'iter:one-ndarray-as-iterable', 'iter:generator-whose-close-raises', 'iter:inside-open-context', 'fsize:refused-in-buffered-tail-of-big-item'] + ['iter:' + k for k in KINDS] + ['iter:append', 'iter:iterappend', 'iter:empty-start', 'iter:p=0', 'iter:p>0',
+MUST_HIT = ['overflow:end=max+1', 'iter:>1024-items-before-the-failure', 'iter:one-ndarray-as-iterable', 'iter:generator-whose-close-raises', 'iter:inside-open-context', 'fsize:refused-in-buffered-tail-of-big-item'] + ['iter:' + k for k in KINDS] + ['iter:append', 'iter:iterappend', 'iter:empty-start', 'iter:p=0', 'iter:p>0',
                                              'fsize:values', 'fsize:indices', 'fsize:loud', 'fsize:silent', 'fsize:mid-row', 'fsize:on-boundary']
 IDXMAX = {'int8': 127, 'uint8': 255, 'int16': 32767}
 
@@ -65,6 +65,7 @@ def st_iter(draw):
             'ctx': draw(st.sampled_from([None, None, 'open_arrays', 'iter_arrays']))}
     if kind == 'overflow':
         spec['indextype'] = draw(st.sampled_from(sorted(IDXMAX)))
+        spec['ovr'] = draw(st.sampled_from([2, 2, 3, 10]))
     return spec
 
 
@@ -153,7 +154,10 @@ def _exec_iter(ctx, spec):
             used = sum(len(x) for x in good[:p])
             first = gens.build_array(dt, (mx - used - 1,) + atom, {'m': 'safe', 's': 5})
             start_items = [first]
-            bad = gens.build_array(dt, (3,) + atom, {'m': 'safe', 's': 6})
+            # the failing item ends at max+1 (the smallest end that does not fit), max+2 or well beyond
+            nbad = spec.get('ovr', 3)
+            bad = gens.build_array(dt, (nbad,) + atom, {'m': 'safe', 's': 6})
+            out.cls(f'overflow:end=max+{nbad - 1}')
         elif kind != 'raise':
             bad = bad_item(kind, dt, atom)
         if start_items:
@@ -349,6 +353,10 @@ def long_grid():
             for atom in ([], [2]):
                 yield {'f': 'iter', 'dt': {'t': 'int32', 'bo': '<'}, 'atom': atom, 'seed': 3, 'start': [], 'n': 3, 'p': p, 'kind': 'overflow',
                        'lens': [3, 3, 3], 'via': 'iterappend-ndarray', 'indextype': itype}
+                for ovr in (2, 3):
+                    for via in ('append', 'iterappend-list', 'iterappend-gen'):
+                        yield {'f': 'iter', 'dt': {'t': 'int16', 'bo': '>'}, 'atom': atom, 'seed': 3, 'start': [], 'n': 2, 'p': min(p, 2), 'kind': 'overflow',
+                               'lens': [1, 2], 'via': via, 'indextype': itype, 'ovr': ovr}
 
 
 def task_fsize(ctx, col, shard):
